@@ -39,7 +39,7 @@ import EasyMl.Model.MatrixView
 import Driver.Parse
 
 namespace Driver.C16
-open EasyMl Driver
+open EasyMl EasyMl.Fallible EasyMl.MatrixView Driver
 
 structure State where
   tview : Option (TView String) := none
